@@ -259,13 +259,18 @@ class Type2Tag(Tag):
                 tag_memory[offset] = 0xFE
             tag_memory.synchronize()
 
-            # Write the ndef message tlv length.
+            # Write the ndef message tlv length. The first length byte
+            # makes the new message visible and must be written last,
+            # if the length field extends into another page then that
+            # part is written to the tag beforehand.
             offset = self._ndef_tlv_offset
             if len(data) < 255:
                 tag_memory[offset+1] = len(data)
             else:
-                tag_memory[offset+1] = 0xFF
                 tag_memory[offset+2:offset+4] = pack(">H", len(data))
+                if (offset + 3) >> 2 != (offset + 1) >> 2:
+                    tag_memory.synchronize()
+                tag_memory[offset+1] = 0xFF
             tag_memory.synchronize()
 
     #
